@@ -18,6 +18,10 @@ LT == INSTANCE LineTrace
 LineOK(x) == /\ x.mitStage = 7 /\ x.mitRC = 0            \* the independent client accepts the simulated KDC's replies
              /\ x.panic = "" /\ x.accepted                \* gokrb5 accepts the independent client's request
              /\ x.idName = x.user /\ x.idRealm = x.realm  \* and reports the sealed identity
+             \* MIT's initiator through gokrb5's HTTP wrapper (C03, positive direction): its SPNEGO token is served with the user's identity;
+             \* its raw Kerberos mechanism token may be served or refused, but only with that identity and never with a panic
+             /\ x.http_spnego.tried => (x.http_spnego.panic = "" /\ x.http_spnego.served /\ x.http_spnego.identity = x.who)
+             /\ x.http_krb5.tried => (x.http_krb5.panic = "" /\ (x.http_krb5.served => x.http_krb5.identity = x.who))
 Init == LT!Init
 Next == LT!Next
 Check == ~LT!Active \/ LineOK(Tr[l]) \/ PrintT(<<"BADLINE", l>>)
